@@ -187,8 +187,35 @@ def check(case):
     return res
 
 
+def grid_cases(tier="quick"):
+    """Placement grid: S-S vector along +-x, +-y, +-z and two diagonals x distance around the limit x
+    position of the pair relative to the coordinate grid (offsets along the S-S axis in 0.4 A steps:
+    any neighbour-search cell structure is straddled in every way)."""
+    out = []
+    dirs = [[1, 0, 0], [-1, 0, 0], [0, 1, 0], [0, -1, 0], [0, 0, 1], [0, 0, -1], [1, 1, 0], [1, -1, 1]]
+    dists = [2.05, 2.3, 2.45, 2.55] if tier == "quick" else [1.95, 2.05, 2.15, 2.25, 2.35, 2.45, 2.49, 2.51, 2.6, 3.0]
+    offs = [0.0, 0.4, 0.8, 1.2, 1.6] if tier == "quick" else [0.2 * k for k in range(26)]
+    k = 0
+    for dv in dirs:
+        for d in dists:
+            for off in offs:
+                k += 1
+                n = len(dv)
+                a = dict(id="A", start=1, seq=["GLY", "CYS", "GLY"], phi=[-70.0] * 3, psi=[140.0, 135.0, 145.0],
+                         chi=[[-60.0, 180.0, 60.0, 180.0, -60.0]] * 3, hyd="none", oxt=True, q=[1, 0, 0, 0], ter=True, cys=1,
+                         shift=[off * dv[0], off * dv[1], off * dv[2]])  # fmt: skip
+                b = dict(id="B", start=11, seq=["CYS", "GLY"], phi=[-65.0] * 2, psi=[150.0, 140.0], chi=[[60.0, 180.0, 60.0, 180.0, -60.0]] * 2,
+                         hyd="none", oxt=True, q=[1, 0.3, 0.1, 0.2], ter=True, cys=0,
+                         ss_to=dict(chain=0, res=1, own=0, d=d, dir=dv))  # fmt: skip
+                out.append(dict(part="grid", desc=dict(chains=[a, b]), ff=["AMBER", "PARSE", "CHARMM"][k % 3], opts=[["--nodebump"], []][k % 2]))
+    return out
+
+
 def parts(tier):
-    return [Part("ss", check, strategy=case(), budget=dict(quick=400, thorough=8000))]
+    return [
+        Part("grid", check, cases=lambda: grid_cases(tier), exhaustive=True),
+        Part("ss", check, strategy=case(), budget=dict(quick=400, thorough=8000)),
+    ]
 
 
 def selftest():
